@@ -276,6 +276,66 @@ def network_cases(jobs):
     return traces
 
 
+class Yielder(object):
+    """an application object whose conversion to a dict gives way to other threads (any conversion hook may)"""
+    def __init__(self, n):
+        self.n = n
+
+
+def concurrent_cases(rounds):
+    """two threads serialise and deserialise at the same time, switching inside the serializer's conversion hook; each must
+    get its own value back (a serializer must not share encoding state between threads)"""
+    from Pyro5 import serializers
+
+    def to_dict(o):
+        S.CUR.yield_point()
+        return {"__class__": "harness.Yielder", "n": o.n}
+    serializers.SerializerBase.register_class_to_dict(Yielder, to_dict)
+    serializers.SerializerBase.register_dict_to_class("harness.Yielder", lambda cn, d: ("yielder", d["n"]))
+    traces = []
+
+    def main():
+        sc = S.CUR
+        results = {}
+
+        def worker(name, tag):
+            def body():
+                for r in range(rounds):
+                    for sername, ser in sorted(serializers.serializers.items()):
+                        payload = [tag * 3, r, {"k": [tag, r * 1000 + len(tag)]}]
+                        ok_exact = False
+                        out = "ok"
+                        try:
+                            back = ser.loads(ser.dumps([Yielder(r), payload, Yielder(-r)]))
+                            ok_exact = isinstance(back, (list, tuple)) and len(back) == 3 and same(back[1], payload)
+                            o, m, va, kw = ser.loadsCall(ser.dumpsCall("obj", "meth", [Yielder(r), payload], {"k": payload}))
+                            ok_exact = ok_exact and same(va[1], payload) and same(kw["k"], payload)
+                        except (S.Hang, S.SchedAbort):
+                            raise
+                        except Exception:
+                            out = "err"
+                        results.setdefault(name, []).append((sername, out, ok_exact))
+            return body
+        sc.spawn("serA", worker("A", "alpha"))
+        sc.spawn("serB", worker("B", "bravo-bravo"))
+        sc.yield_point(lambda: all(len(results.get(n, [])) == rounds * len(serializers.serializers) for n in ("A", "B")))
+        core = {"k": "list", "c": [{"k": "str", "c": []}, {"k": "int", "c": []}, {"k": "dictstr", "c": [{"k": "list", "c": [{"k": "str", "c": []}, {"k": "int", "c": []}]}]}]}
+        for name in ("A", "B"):
+            for sername, out, ok_exact in results[name]:
+                traces.append({"ser": sername, "v": core, "comp": False, "level": "concurrent", "hang": False,
+                               "pos": [{"name": "result", "out": out, "shape": core if out == "ok" else {"k": "err", "c": []}}],
+                               "sym": True, "idem": True, "exact": ok_exact, "bsame": True, "ssame": True})
+    import random as _r
+    try:
+        memnet.run(main, chooser=S.RandomChooser(_r.Random(rounds)), max_steps=20000000)
+    finally:
+        serializers.SerializerBase.unregister_class_to_dict(Yielder)
+        serializers.SerializerBase.unregister_dict_to_class("harness.Yielder")
+    if len(traces) < rounds * 8:
+        raise util.MachineryError("concurrent serialisation pass incomplete (%d)" % len(traces))
+    return traces
+
+
 def run(ctx):
     memnet.install()
     from Pyro5 import serializers
@@ -317,6 +377,7 @@ def run(ctx):
                 continue
             jobs.append((sername, a, v, bool((i // 2 + k) % 2), pads[(i + k // 2) % len(pads)]))
     traces += network_cases(jobs)
+    traces += concurrent_cases(ctx.pick(40, 400))
     for tr in traces:
         bare = not tr["v"]["c"] and tr["v"]["k"] in ("none", "bool", "int", "float", "str")
         ctx.count(None if bare else json.dumps([tr["ser"], tr["v"], tr["level"], tr["comp"]], sort_keys=True))
